@@ -95,6 +95,7 @@ func C05Part(run *report.Run, st *Setup, tier string) {
 			run.Infra(err.Error())
 			return
 		}
+		env.MaybeTTY(run, fmt.Sprint(i), 4)
 		keep := false
 		defer func() {
 			if !keep {
